@@ -999,6 +999,17 @@ def dict_setitem(ex, state, ref, k, v):
             raise Unsupported("store of %r into a table of lists" % (v,))
         o.sym["val"] = z3.Store(sym["val"], t, _unwrap_sym(sym["vtype"], v))
         return
+    if o.d == {} and not (isinstance(k, VStr) and z3.is_string_value(k.t)) and isinstance(k, (VStr, VInt)):
+        # an empty dict receiving a symbolic key becomes a symbolic table (key sort from the key, values by kind)
+        kt = "str" if isinstance(k, VStr) else "int"
+        vt = "int" if isinstance(v, VInt) else ("str" if isinstance(v, VStr) else ("bool" if isinstance(v, VBool) else None))
+        if vt is None:
+            raise Unsupported("symbolic-key store of %r into a dict literal" % (v,))
+        o.d = None
+        o.sym = {"ktype": kt, "vtype": vt,
+                 "has": z3.Store(z3.K(_ksort(kt), z3.BoolVal(False)), k.t, z3.BoolVal(True)),
+                 "val": z3.Store(z3.K(_ksort(kt), v.t if vt != "bool" else v.t), k.t, v.t)}
+        return
     o.d[ex.const_key(k)] = v
 
 
